@@ -21,6 +21,9 @@ def c16(ctx: Ctx):
         cases = os.path.join(ctx.scratch, "cases1.ndjson")
         write_ndjson(cases, [c for c in read_ndjson(allc) if all(c.get(k) == want.get(k) for k in ("kind", "style", "entry", "pos", "shape", "site"))])
     else:
+        # D: the default naming scheme as a function; its non-injectivity (open finding F-C16-1) must keep showing
+        ctx.tlc("Internalize", "MC_C16_names.cfg", expect_violation=True, workers=2,
+                label="D DefaultRefNameResolver model: NamesInjective counterexample (F-C16-1)")
         cases = gen_universes(ctx, ctx.tier)
         ctx.exhaustive = True
     ctx.build_driver()
